@@ -77,6 +77,13 @@ func checkC05(c *Case, st *Stats) string {
 	for i, d := range c.Docs {
 		docs[i] = d.Build(c.UseNumber)
 	}
+	// a user function may itself call the parsed function (on another document) while the
+	// outer call is in progress: the outer call must be unaffected
+	reentries := 0
+	rec.Reenter = func() {
+		reentries++
+		_, _ = f(docs[reentries%len(docs)])
+	}
 	type kept struct {
 		live      []interface{}
 		copy      []interface{}
@@ -167,6 +174,7 @@ func checkC05(c *Case, st *Stats) string {
 		}
 	}
 	st.ClassN("calls", calls)
+	st.ClassN("re-entrant-calls", reentries)
 	if triple {
 		st.Class("history:success-failure-success")
 	}
